@@ -74,6 +74,7 @@ type FuncContract struct {
 	Unroll   map[int]int
 	Uses     []string
 	NoSafety bool
+	AppendInPlace bool // append is modelled with both outcomes: writing into spare capacity of the operand's array, or a fresh array
 	CutLoops bool // modular loops: the code after a loop header is verified once, from the invariant alone
 	Stop     string // region contract: paths end before this call site; ensures are checked there
 	Start    string // region contract: verification starts before this call site (callee#k)
@@ -321,6 +322,8 @@ func (cs *Contracts) parseFile(path string) error {
 			cur.Stop = strings.TrimSpace(r3)
 		case "cutloops":
 			cur.CutLoops = true
+		case "appendinplace":
+			cur.AppendInPlace = true
 		case "nosafety":
 			cur.NoSafety = true
 		case "noframe":
